@@ -86,6 +86,7 @@ method, because no additional init parameters are needed.
 
 
 from pywbem._nocasedict import NocaseDict
+from pywbem._vendor.nocaselist import NocaseList
 
 from pywbem import CIMInstanceName, CIMInstance, CIMError, CIMClass, \
     CIM_ERR_INVALID_PARAMETER, CIM_ERR_ALREADY_EXISTS, CIM_ERR_INVALID_CLASS, \
@@ -565,7 +566,8 @@ class InstanceWriteProvider(BaseProvider):
                                                  target_namespace)
         assert self.is_association(creation_class)
 
-        ref_namespaces = set()
+        # Namespace names are case insensitive
+        ref_namespaces = NocaseList()
         for inst_prop in cim_object.properties.values():
             if inst_prop.type == 'reference':
                 if inst_prop.value is None:
@@ -578,8 +580,10 @@ class InstanceWriteProvider(BaseProvider):
                 # Add to list if namespace exists and not same as
                 # target_namespace
                 if refprop_namespace:
-                    if refprop_namespace != target_namespace:
-                        ref_namespaces.add(inst_prop.value.namespace)
+                    if refprop_namespace.lower() != \
+                            target_namespace.lower() and \
+                            refprop_namespace not in ref_namespaces:
+                        ref_namespaces.append(refprop_namespace)
 
         return list(ref_namespaces)
 
